@@ -319,7 +319,59 @@ def rule_no_stale_cache_(ctx: Ctx, rep: Report) -> None:
     rule_no_stale_cache(ctx, rep, "C17.no_stale_cache", ('btclib.p2p', 'btclib.block'), 1)
 
 
+def rule_every_node_is_parsed(ctx: Ctx, rep: Report) -> None:
+    """C17.every_node_is_parsed: the CVE-2017-12842 guard asks the transaction
+    parser about *every* inner node: no path through
+    `_assert_inner_node_is_not_a_tx` returns before `Tx.parse` was called -- a
+    fast path that waves through the nodes "not opening like a transaction"
+    (version 1 or 2) lets a 64-byte transaction of version 3 be proved as a
+    leaf. And the parser it asks is not restricted (`check_validity=False`)."""
+    rule = "C17.every_node_is_parsed"
+    fi = ctx.func("btclib.block.merkle_proof._assert_inner_node_is_not_a_tx")
+    g = ctx.cfg(fi)
+    calls = [c for c in own_nodes(fi.node) if isinstance(c, ast.Call) and norm(c.func) == "Tx.parse"]
+    if not calls:
+        rep.ob(rule, "guard:parser", False, fi.where(), "Tx.parse is not called")
+        return
+    ids = [i for c in calls for i in g.nodes_containing(c)]
+    n = 0
+    for r in own_nodes(fi.node):
+        if isinstance(r, ast.Return):
+            n += 1
+            path = g.path_avoiding(g.nodes_containing(r), ids)
+            rep.ob(rule, f"guard:return@{n}", path is None, fi.where(r), "returns only after the parser was asked" if path is None else
+                   f"`{norm(r)}` at line {r.lineno} is reached without asking the parser: some inner nodes are never tested for being a transaction")
+    facts = g.facts_at_ast(calls[0])
+    pos = [str(t) for t, pol in facts]
+    rep.ob(rule, "guard:unconditional", not pos, fi.where(calls[0]), "the parser is asked unconditionally" if not pos else f"the parser is asked only under {pos}")
+    # the node is refused when it round-trips
+    raises = [x for x in own_nodes(fi.node) if isinstance(x, ast.Raise)]
+    rep.ob(rule, "guard:refuses", bool(raises), fi.where(), "a node that is a transaction is refused")
+    rep.floor(rule, 3)
+
+
+def rule_golomb_unbounded(ctx: Ctx, rep: Report) -> None:
+    """C17.golomb_unbounded: BIP158's Golomb-Rice quotient is a unary run whose
+    length is delta >> P, and delta is bounded only by N*M: the decoder reads it
+    to its terminating zero and has no refusal of its own (what ends a run that
+    is too long is the end of the data, which the bit reader refuses). A cap on
+    the quotient refuses filters the encoder writes -- 31 elements can have a
+    gap of 46 << 19."""
+    rule = "C17.golomb_unbounded"
+    fi = ctx.func("btclib.block.block_filter._golomb_decode")
+    raises = [x for x in own_nodes(fi.node) if isinstance(x, ast.Raise)]
+    rep.ob(rule, "_golomb_decode:no_refusal", not raises, fi.where(raises[0] if raises else None), "no refusal of its own: the unary run is read to its end" if not raises else
+           f"`{norm(raises[0])[:80]}`: the decoder refuses a quotient the encoder can write")
+    enc = ctx.func("btclib.block.block_filter._golomb_encode") if "btclib.block.block_filter._golomb_encode" in ctx.prog.functions else None
+    if enc is not None:
+        r2 = [x for x in own_nodes(enc.node) if isinstance(x, ast.Raise)]
+        rep.ob(rule, "_golomb_encode:no_refusal", not r2, enc.where(), "the encoder has no refusal either")
+    rep.floor(rule, 1)
+
+
 RULES = [
+    ("C17.every_node_is_parsed", rule_every_node_is_parsed),
+    ("C17.golomb_unbounded", rule_golomb_unbounded),
     ("C17.no_stale_cache", rule_no_stale_cache_),
 
     ("C17.witness_kept", rule_witness_kept),
